@@ -13,8 +13,8 @@ import time
 
 import z3
 
-Z3_TIMEOUT_MS = int(os.environ.get("PYVC_Z3_MS", "10000"))
-CVC5_TIMEOUT_S = int(os.environ.get("PYVC_CVC5_S", "30"))
+Z3_TIMEOUT_MS = int(os.environ.get("PYVC_Z3_MS", "12000"))
+CVC5_TIMEOUT_S = int(os.environ.get("PYVC_CVC5_S", "60"))
 CVC5 = "/usr/bin/cvc5"
 
 
@@ -132,7 +132,7 @@ Z3CLI = "z3-new"
 _DEF = re.compile(r"\(define-fun\s+(\S+)\s+\(\)\s+(\S+)\s+((?:\"(?:[^\"]|\"\")*\")|[^\s()]+|\(- \d+\))\)")
 
 
-def run_z3_cli(smt2, timeout_s=20):
+def run_z3_cli(smt2, timeout_s=40):
     """The z3 command-line front end uses a different default strategy than the API solver: third portfolio member."""
     text = smt2.replace("(check-sat)", "(check-sat)\n(get-model)")
     with tempfile.NamedTemporaryFile("w", suffix=".smt2", delete=False, dir=os.environ.get("TMPDIR", "/tmp")) as f:
@@ -178,7 +178,7 @@ def decide(job):
     if r in ("sat", "unsat"):
         res.update(backend="z3", verdict=r, model=model)
         if job.get("both"):
-            r2, dt2, _m, why2 = run_cvc5(smt2, job.get("cvc5_s"))
+            r2, dt2, _m, why2 = run_cvc5(smt2, min(job.get("cvc5_s") or 20, 20))      # second opinion: short budget
             res["time_s"] += dt2
             res["second"] = r2
             if r2 in ("sat", "unsat") and r2 != r:
